@@ -127,8 +127,14 @@ Proof.
     destruct (N.eqb_spec ft 3); [lia|]. destruct (N.eqb_spec ft 4); [lia|]. destruct (N.eqb_spec ft 5); [lia|]. reflexivity.
 Qed.
 
-Theorem special_worker_spec nc ex umask src :
-  (ex = true -> nc = true -> special_worker nc ex umask src = None) /\
-  (ex = true -> nc = false -> special_worker nc ex umask src = Some [SpUnlink; SpMknod (copy_node umask src)]) /\
-  (ex = false -> special_worker nc ex umask src = Some [SpMknod (copy_node umask src)]).
+Theorem special_worker_spec nc ex same umask src :
+  (ex = true -> nc = true -> special_worker nc ex same umask src = None) /\
+  (ex = true -> nc = false -> same = true -> special_worker nc ex same umask src = None) /\
+  (ex = true -> nc = false -> same = false -> special_worker nc ex same umask src = Some [SpUnlink; SpMknod (copy_node umask src)]) /\
+  (ex = false -> special_worker nc ex same umask src = Some [SpMknod (copy_node umask src)]).
 Proof. unfold special_worker. repeat split; intros; subst; reflexivity. Qed.
+
+(* the source node is never unlinked: when the existing target is the source itself the worker performs no action *)
+Theorem special_worker_never_unlinks_source nc umask src :
+  special_worker nc true true umask src = None.
+Proof. unfold special_worker. destruct nc; reflexivity. Qed.
